@@ -62,7 +62,7 @@ fn main() {
     for i in 0..n {
         let mut srng = rng.fork();
         let w = match family {
-            "conflict" => {
+            "conflict" | "converge" => {
                 use serde_json::json;
                 let mut prof = Profile::all();
                 prof.texts = false;
@@ -88,7 +88,11 @@ fn main() {
                     prof,
                     enc: automerge::TextEncoding::UnicodeCodePoint,
                 };
-                scen::graph_scenario(i, &mut srng, &o, family)
+                if family == "converge" {
+                    scen::converge_scenario(i, &mut srng, &o, family, 4)
+                } else {
+                    scen::graph_scenario(i, &mut srng, &o, family)
+                }
             }
             "doc" | "doctext" => {
                 let text = family == "doctext";
